@@ -136,6 +136,9 @@ structure Facts where
   /-- typecheck.go `typeAssertionExpr`: the pointer-receiver rejection applies to methods declared on
       the type itself only (`len(index) == 0`, since 5c3b0c5) -/
   assertPtrOwnOnly : Bool
+  /-- typecheck.go `typeAssertionExpr`: … and, since 6b1f98f, to a promoted method that
+      `needsPtrForMethod` says does not cross an embedded pointer (`|| !isBin(typ) && typ.needsPtrForMethod(name)`) -/
+  assertPtrNeedsPtr : Bool
   /-- cfg.go post-order `case typeSwitch`: the clause types are checked with `typeAssertionExpr` (since 5c3b0c5) -/
   tswitchCasesChecked : Bool
   /-- run.go `typeAssert`: the wrapper of an assertion to a host interface is made over the value the
